@@ -144,7 +144,8 @@ pub trait Message: Sized {
     fn write<W: Write>(&self, writer: &mut W) -> (r: RdpResult<()>)
         ensures
             r is Ok ==> final(writer).written() == old(writer).written() + ser(self.mv()),
-            r is Err ==> is_prefix(old(writer).written(), final(writer).written());
+            r is Err ==> is_prefix(old(writer).written(), final(writer).written()),
+            !automata_err(r);
 
     fn read<R: Read>(&mut self, reader: &mut R) -> (r: RdpResult<()>)
         ensures
